@@ -54,9 +54,51 @@ VFind(r) ==
                               THEN Rej("normalized path differs", <<>>)
                           ELSE Acc
 
+(* ---- probe functions: what every call receives (C10) --------------------- *)
+RECURSIVE FirstCall(_, _)
+\* the first call of function f inside expression e (depth-first): <<>> or <<node>>
+FirstCallIn(es, f) ==
+    LET hits == SelectSeq([k \in 1..Len(es) |-> FirstCall(es[k], f)], LAMBDA h : h # <<>>)
+    IN  IF hits = <<>> THEN <<>> ELSE hits[1]
+FirstCall(e, f) ==
+    CASE e.t \in {"or", "and", "cmp"} -> FirstCallIn(<<e.l, e.r>>, f)
+      [] e.t \in {"not", "paren"}     -> FirstCall(e.e, f)
+      [] e.t = "call" -> IF e.f = f THEN <<e>> ELSE FirstCallIn(e.args, f)
+      [] OTHER -> <<>>
+
+ProjArg(a) ==
+    CASE a.k = "value"   -> IF a.v = Nothing THEN [as |-> "nothing"] ELSE [as |-> "value", v |-> a.v]
+      [] a.k = "logical" -> [as |-> "logical", b |-> a.b]
+      [] a.k = "nodes"   -> [as |-> "nodes", vs |-> [k \in 1..Len(a.nl) |-> a.nl[k].v]]
+      [] OTHER -> [as |-> "other"]
+
+\* r.q is '$[?EXPR]' with an unconditional call of r.fname; r.calls: the argument
+\* lists the probe logged, one per call
+VProbe(r) ==
+    LET reg == RegOf(r)
+        cv  == CompileVerdict(r.q, reg, LoOf(r), HiOf(r))
+    IN  IF cv.v # "accept" THEN Acc
+        ELSE LET segs == Parse(r.q, FALSE).v
+                 e    == segs[1].sels[1].e
+                 call == FirstCall(e, r.fname)[1]
+                 sig  == Sig(reg, r.fname)[1]
+                 kids == Children(RootNode(r.doc))
+                 want == {[k \in 1..Len(call.args) |->
+                              ProjArg(ArgFor(call.args[k], sig.params[k], kids[c], r.doc, reg))] :
+                          c \in 1..Len(kids)}
+                 got  == {r.calls[k] : k \in 1..Len(r.calls)}
+             IN  IF r.out # "ok" /\ r.stage = "compile" THEN
+                     IF r.jp THEN Rej("C03 valid query rejected", <<r.cls>>)
+                     ELSE Rej("C13 compile raised a non-JSONPathError", <<r.cls>>)
+                 ELSE IF r.out # "ok" THEN Rej("find raised on a valid query", <<r.cls>>)
+                 ELSE IF got # want THEN Rej("function received other arguments than RFC 9535 2.4 prescribes",
+                                            <<ToJson(want \ got), ToJson(got \ want)>>)
+                 ELSE Acc
+
 Verdict(r) ==
     CASE r.op = "compile" -> VCompile(r)
       [] r.op = "find"    -> VFind(r)
+      [] r.op = "probe"   -> VProbe(r)
       [] OTHER -> Rej("unknown record kind", <<r.op>>)
 
 TraceInit == l = 1
